@@ -1,5 +1,415 @@
 package main
 
-import "verifharness/pkg/hx"
+// Correspondence cases for C08: the pipelines transcribed in coq/model/MapOrder.v are run on the REAL code with a
+// PRNG-built Go map; the observed output and the map's entries (as an association list in a PRNG-chosen order)
+// go to cases_C08_*.v, where coq/model/MapOrderCorr.v evaluates the model on that list.  The model's output does
+// not depend on the list order (theorems of props/C08.v); the comparison validates that the transcription orders,
+// selects and tie-breaks like the Go code (byte order of sort.Strings, the minimum rule of XObject.Get, key order
+// of encoding/json, luis/wit/dtone selection rules).
 
-func writeCases(o *hx.Opts, res *hx.Result) {}
+import (
+	"bytes"
+	"encoding/json"
+	"fmt"
+	"net/http"
+	"sort"
+	"strings"
+	"time"
+
+	"github.com/nyaruka/gocommon/httpx"
+	"github.com/nyaruka/gocommon/urns"
+	"github.com/nyaruka/goflow/envs"
+	"github.com/nyaruka/goflow/excellent/types"
+	"github.com/nyaruka/goflow/flows"
+	"github.com/nyaruka/goflow/flows/definition"
+	"github.com/nyaruka/goflow/services/airtime/dtone"
+	"github.com/nyaruka/goflow/services/classification/luis"
+	"github.com/nyaruka/goflow/services/classification/wit"
+	gftest "github.com/nyaruka/goflow/test"
+	"github.com/shopspring/decimal"
+
+	"verifharness/pkg/hx"
+)
+
+type caseGen struct {
+	r *hx.Rand
+}
+
+var keyAlphabet = []string{"a", "b", "c", "z", "A", "B", "Z", "_", "0", "9", "-", " ", "é", "ß", "Ω", "я", "中", "~", "aa", "ab", "Ab", "aB"}
+
+// keys: n distinct strings, mixed case / digits / non-ASCII so that byte order, code point order and
+// case-insensitive order all differ
+func (c *caseGen) keys(n int, asciiOnly bool) []string {
+	seen := map[string]bool{}
+	var out []string
+	for len(out) < n {
+		var sb strings.Builder
+		for i, k := 0, c.r.Range(1, 4); i < k; i++ {
+			a := hx.Pick(c.r, keyAlphabet)
+			if asciiOnly && a[0] >= 0x80 {
+				a = "q"
+			}
+			sb.WriteString(a)
+		}
+		s := sb.String()
+		if !seen[s] {
+			seen[s] = true
+			out = append(out, s)
+		}
+	}
+	return out
+}
+
+func (c *caseGen) shuffle(n int) []int {
+	p := make([]int, n)
+	for i := range p {
+		p[i] = i
+	}
+	for i := n - 1; i > 0; i-- {
+		j := c.r.Intn(i + 1)
+		p[i], p[j] = p[j], p[i]
+	}
+	return p
+}
+
+func strList(xs []string) string { return hx.List(xs, hx.Str) }
+
+func entriesN(keys []string, vals []int, perm []int) string {
+	parts := make([]string, len(perm))
+	for i, j := range perm {
+		parts[i] = fmt.Sprintf("(%s, %s)", hx.Str(keys[j]), hx.N(vals[j]))
+	}
+	return "[" + strings.Join(parts, "; ") + "]"
+}
+
+// jsonKeyOrder: member names of a JSON object in the order they appear in the bytes
+func jsonKeyOrder(b []byte) []string {
+	dec := json.NewDecoder(bytes.NewReader(b))
+	var keys []string
+	depth := 0
+	expectKey := false
+	for {
+		tok, err := dec.Token()
+		if err != nil {
+			break
+		}
+		switch t := tok.(type) {
+		case json.Delim:
+			switch t {
+			case '{', '[':
+				depth++
+				expectKey = t == '{' && depth == 1
+			case '}', ']':
+				depth--
+				expectKey = depth == 1
+			}
+		case string:
+			if depth == 1 && expectKey {
+				keys = append(keys, t)
+				expectKey = false
+			} else if depth == 1 {
+				expectKey = true
+			}
+		default:
+			if depth == 1 {
+				expectKey = true
+			}
+		}
+	}
+	return keys
+}
+
+type coqCase struct {
+	term  string
+	input any
+	impl  any
+	kind  string
+}
+
+func (c *caseGen) propsCase() coqCase {
+	n := c.r.Range(0, 9)
+	keys := c.keys(n, false)
+	m := map[string]types.XValue{}
+	vals := make([]int, n)
+	for i, k := range keys {
+		vals[i] = i
+		m[k] = types.NewXNumberFromInt(i)
+	}
+	impl := types.NewXObject(m).Properties()
+	return coqCase{fmt.Sprintf("KProps %s %s", entriesN(keys, vals, c.shuffle(n)), strList(impl)), keys, impl, "props"}
+}
+
+func (c *caseGen) marshalCase() coqCase {
+	n := c.r.Range(0, 9)
+	keys := c.keys(n, false)
+	m := map[string]types.XValue{}
+	vals := make([]int, n)
+	for i, k := range keys {
+		vals[i] = i
+		m[k] = types.NewXNumberFromInt(i)
+	}
+	b, err := types.NewXObject(m).MarshalJSON()
+	if err != nil {
+		panic(err)
+	}
+	impl := jsonKeyOrder(b)
+	if impl == nil {
+		impl = []string{}
+	}
+	return coqCase{fmt.Sprintf("KMarshal %s %s", entriesN(keys, vals, c.shuffle(n)), strList(impl)), keys, impl, "marshal"}
+}
+
+// Get: several spellings of the same name (they differ only in ASCII case) among other keys
+func (c *caseGen) getCase() coqCase {
+	base := hx.Pick(c.r, []string{"name", "ab", "x_1", "zeta", "q"})
+	variants := map[string]bool{}
+	for i, k := 0, c.r.Range(0, 4); i < k; i++ {
+		var sb strings.Builder
+		for _, ch := range base {
+			if c.r.Bool() {
+				sb.WriteString(strings.ToUpper(string(ch)))
+			} else {
+				sb.WriteRune(ch)
+			}
+		}
+		variants[sb.String()] = true
+	}
+	keys := hx.SortedKeys(variants)
+	for _, k := range c.keys(c.r.Range(0, 4), true) {
+		if !variants[k] && strings.ToLower(k) != base {
+			keys = append(keys, k)
+		}
+	}
+	n := len(keys)
+	m := map[string]types.XValue{}
+	vals := make([]int, n)
+	for i, k := range keys {
+		vals[i] = i + 1
+		m[k] = types.NewXNumberFromInt(i + 1)
+	}
+	lookup := base
+	if c.r.Chance(1, 3) {
+		lookup = strings.ToUpper(base)
+	}
+	if c.r.Chance(1, 6) {
+		lookup = "missing"
+	}
+	v, ok := types.NewXObject(m).Get(lookup)
+	impl := "None"
+	var implJ any
+	if ok {
+		num := v.(*types.XNumber).Native().IntPart()
+		impl = fmt.Sprintf("(Some %s)", hx.N(int(num)))
+		implJ = num
+	}
+	return coqCase{fmt.Sprintf("KGet %s %s %s", entriesN(keys, vals, c.shuffle(n)), hx.Str(lookup), impl),
+		map[string]any{"keys": keys, "lookup": lookup}, implJ, "get"}
+}
+
+func (c *caseGen) formatCase() coqCase {
+	n := c.r.Range(0, 6)
+	names := map[string]bool{}
+	for len(names) < n {
+		names[strings.TrimSpace(hx.Pick(c.r, []string{"Favorite Color", "age", "Age Group", "Zip", "beer", "Beer 2", "émile", "a", "B"})+" "+fmt.Sprint(c.r.Intn(30)))] = true
+	}
+	rs := flows.NewResults()
+	env := envs.NewBuilder().Build()
+	for _, nm := range hx.SortedKeys(names) {
+		val := hx.Pick(c.r, []string{"red", "Red", "10", "9", "", "été", "Z", "a b"})
+		rs.Save(flows.NewResult(nm, val, "Cat", "", flows.NodeUUID("6d3fd3b4-3a8e-4f5b-8a3a-000000000001"), "", nil, time.Date(2024, 1, 2, 3, 4, 5, 0, time.UTC)))
+	}
+	var ks []string
+	for k := range rs {
+		ks = append(ks, k)
+	}
+	sort.Strings(ks)
+	perm := c.shuffle(len(ks))
+	parts := make([]string, len(ks))
+	for i, j := range perm {
+		r := rs[ks[j]]
+		parts[i] = fmt.Sprintf("(%s, (%s, %s))", hx.Str(ks[j]), hx.Str(r.Name), hx.Str(r.Value))
+	}
+	impl := rs.Context(env)["__default__"].(*types.XText).Native()
+	return coqCase{fmt.Sprintf("KFormat [%s] %s", strings.Join(parts, "; "), hx.Str(impl)), ks, impl, "format"}
+}
+
+var langCodes = []string{"fra", "spa", "kin", "por", "deu", "eng", "ara", "zho", "swa", "hin"}
+
+func (c *caseGen) languagesCase() coqCase {
+	n := c.r.Range(0, 6)
+	perm := c.shuffle(len(langCodes))
+	loc := obj{}
+	var langs []string
+	for i := 0; i < n; i++ {
+		l := langCodes[perm[i]]
+		langs = append(langs, l)
+		loc[l] = obj{"6d3fd3b4-3a8e-4f5b-8a3a-00000000000a": obj{"text": []string{"t " + l}}}
+	}
+	def := obj{"uuid": "6d3fd3b4-3a8e-4f5b-8a3a-0000000000f1", "name": "L", "spec_version": "13.6.0", "language": "und", "type": "messaging",
+		"nodes": []any{}, "localization": loc}
+	flow, err := definition.ReadFlow(mustJSON(def), nil)
+	if err != nil {
+		panic(fmt.Sprintf("languages case: %v", err))
+	}
+	got := flow.Localization().Languages()
+	impl := make([]string, len(got))
+	for i, l := range got {
+		impl[i] = string(l)
+	}
+	return coqCase{fmt.Sprintf("KLanguages %s %s", strList(langs), strList(impl)), langs, impl, "languages"}
+}
+
+func withMocks(mocks map[string]string, f func()) {
+	m := map[string][]*httpx.MockResponse{}
+	for u, b := range mocks {
+		m[u] = []*httpx.MockResponse{httpx.NewMockResponse(200, nil, []byte(b))}
+	}
+	httpx.SetRequestor(httpx.NewMockRequestor(m))
+	defer httpx.SetRequestor(httpx.DefaultRequestor)
+	f()
+}
+
+func (c *caseGen) luisCase() coqCase {
+	n := c.r.Range(1, 6)
+	names := c.keys(n, true)
+	scores := make([]int, n)
+	intents := obj{}
+	for i, nm := range names {
+		scores[i] = hx.Pick(c.r, []int{10, 210, 210, 500, 990}) // ties on purpose
+		intents[nm] = obj{"score": json.Number(fmt.Sprintf("0.%03d", scores[i]))}
+	}
+	body := mustJSON(obj{"query": "hello", "prediction": obj{"topIntent": names[0], "intents": intents, "entities": obj{}}})
+	var impl []string
+	withMocks(map[string]string{"https://luis.example.com/luis/prediction/v3.0/apps/app1/slots/production/predict?subscription-key=key1&verbose=true&show-all-intents=true&log=true&query=hello": string(body)}, func() {
+		svc := luis.NewService(http.DefaultClient, nil, nil, gftest.NewClassifier("Booking", "luis", []string{"x"}), "https://luis.example.com/", "app1", "key1", "production")
+		cl, err := svc.Classify(envs.NewBuilder().Build(), "hello", (&flows.HTTPLogger{}).Log)
+		if err != nil {
+			panic(fmt.Sprintf("luis case: %v", err))
+		}
+		for _, in := range cl.Intents {
+			impl = append(impl, in.Name)
+		}
+	})
+	return coqCase{fmt.Sprintf("KLuis %s %s", entriesN(names, scores, c.shuffle(n)), strList(impl)), intents, impl, "luis"}
+}
+
+func (c *caseGen) witCase() coqCase {
+	n := c.r.Range(1, 5)
+	bases := []string{"loc", "wit$location", "day", "x"}
+	roles := []string{"", ":from", ":to", ":a", ":B"}
+	seen := map[string]bool{}
+	var keys []string
+	for len(keys) < n {
+		k := hx.Pick(c.r, bases) + hx.Pick(c.r, roles)
+		if !seen[k] {
+			seen[k] = true
+			keys = append(keys, k)
+		}
+	}
+	vals := make([]int, n)
+	ents := obj{}
+	for i, k := range keys {
+		vals[i] = i + 1
+		ents[k] = []any{obj{"id": fmt.Sprint(i), "name": strings.Split(k, ":")[0], "role": "r", "value": fmt.Sprintf("v%d", i+1), "confidence": 0.9}}
+	}
+	body := mustJSON(obj{"text": "hello", "intents": []any{}, "entities": ents, "traits": obj{}})
+	var pairs []string
+	implJ := map[string]int{}
+	withMocks(map[string]string{"https://api.wit.ai/message?v=20200513&q=hello": string(body)}, func() {
+		svc := wit.NewService(http.DefaultClient, nil, gftest.NewClassifier("Booking", "wit", []string{"x"}), "token1")
+		cl, err := svc.Classify(envs.NewBuilder().Build(), "hello", (&flows.HTTPLogger{}).Log)
+		if err != nil {
+			panic(fmt.Sprintf("wit case: %v", err))
+		}
+		for _, name := range hx.SortedKeys(cl.Entities) {
+			var id int
+			fmt.Sscanf(cl.Entities[name][0].Value, "v%d", &id)
+			pairs = append(pairs, fmt.Sprintf("(%s, %s)", hx.Str(name), hx.N(id)))
+			implJ[name] = id
+		}
+	})
+	return coqCase{fmt.Sprintf("KWit %s [%s]", entriesN(keys, vals, c.shuffle(n)), strings.Join(pairs, "; ")), ents, implJ, "wit"}
+}
+
+func (c *caseGen) dtoneCase() coqCase {
+	curs := []string{"USD", "RWF", "EUR", "KES", "usd"}
+	n := c.r.Range(1, 4)
+	perm := c.shuffle(len(curs))
+	amounts := map[string]decimal.Decimal{}
+	var products []any
+	var entries []string
+	for i := 0; i < n; i++ {
+		cur := curs[perm[i]]
+		amt := (i + 1) * 10
+		amounts[cur] = decimal.NewFromInt(int64(amt))
+		offered := c.r.Chance(2, 3)
+		if offered {
+			products = append(products, obj{"id": i + 1, "name": cur, "destination": obj{"amount": amt, "unit": cur}})
+		} else {
+			products = append(products, obj{"id": i + 1, "name": cur, "destination": obj{"amount": amt + 1, "unit": cur}})
+		}
+		entries = append(entries, fmt.Sprintf("(%s, (%s, %s))", hx.Str(cur), hx.N(amt), hx.Bool(offered)))
+	}
+	sh := c.shuffle(n)
+	shuffled := make([]string, n)
+	for i, j := range sh {
+		shuffled[i] = entries[j]
+	}
+	impl := "None"
+	var implJ any
+	withMocks(map[string]string{
+		"https://dvs-api.dtone.com/v1/lookup/mobile-number": `[{"id":1596,"name":"Claro","identified":true}]`,
+		"https://dvs-api.dtone.com/v1/products?type=FIXED_VALUE_RECHARGE&operator_id=1596&per_page=100": string(mustJSON(products)),
+		"https://dvs-api.dtone.com/v1/async/transactions":                                              `{"id":2237512891,"external_id":"x","status":{"id":20000,"message":"CONFIRMED","class":{"id":2,"message":"CONFIRMED"}}}`,
+	}, func() {
+		svc := dtone.NewService(http.DefaultClient, nil, "key123", "sesame")
+		tr, err := svc.Transfer(urns.URN("tel:+593979000000"), urns.URN("tel:+593979123456"), amounts, (&flows.HTTPLogger{}).Log)
+		if err == nil {
+			impl = fmt.Sprintf("(Some %s)", hx.Str(tr.Currency))
+			implJ = tr.Currency
+		}
+	})
+	return coqCase{fmt.Sprintf("KDtone [%s] %s", strings.Join(shuffled, "; "), impl), amounts, implJ, "dtone"}
+}
+
+func writeCases(o *hx.Opts, res *hx.Result) {
+	if o.Replay != "" {
+		return
+	}
+	resetSources(true)
+	perKind := 40
+	switch o.Tier {
+	case "thorough":
+		perKind = 600
+	case "search":
+		perKind = 150
+	}
+	c := &caseGen{r: hx.NewRand(o.Seed).Fork("corr-cases")}
+	gens := []func() coqCase{c.propsCase, c.marshalCase, c.getCase, c.formatCase, c.languagesCase, c.luisCase, c.witCase, c.dtoneCase}
+	var all []coqCase
+	for i := 0; i < perKind; i++ {
+		for _, g := range gens {
+			all = append(all, g())
+		}
+	}
+	const shard = 400
+	for s := 0; s*shard < len(all); s++ {
+		lo, hi := s*shard, (s+1)*shard
+		if hi > len(all) {
+			hi = len(all)
+		}
+		cf := hx.NewCoqFile(fmt.Sprintf("cases_C08_%d_%d.v", o.Seed, s),
+			"From Coq Require Import List NArith Bool.\nFrom Verif Require Import model.MapOrder model.MapOrderCorr.\nImport ListNotations.\nOpen Scope N_scope.\n")
+		names := make([]string, 0, hi-lo)
+		for i, cc := range all[lo:hi] {
+			nm := fmt.Sprintf("c%d", i)
+			cf.Add(fmt.Sprintf("Definition %s : ccase := %s.", nm, cc.term))
+			names = append(names, nm)
+			res.Cases = append(res.Cases, hx.Case{File: cf.Name, Index: i, Input: map[string]any{"kind": cc.kind, "input": cc.input}, Impl: cc.impl})
+			res.Dist("corr-case:" + cc.kind)
+		}
+		cf.Add("Definition cases : list ccase := [" + strings.Join(names, "; ") + "].")
+		cf.Add("Definition M := Eval vm_compute in mismatches cases.\nPrint M.")
+		cf.Save(o, res)
+	}
+}
